@@ -233,6 +233,10 @@ def compare_scope(want, got, path='', out=None):
             out.append('%s.td[%s]: expected one typedef instantiation named %s, observed none' % (path, t['k'], t['n']))
         else:
             out += D.diff_all(t, g, '%s.td' % path)
+    want_order = [(t['k'], t['n']) for t in want['td'] if (t['k'], t['n']) in tds]
+    if list(tds) != want_order:
+        out.append('%s.td-order: typedef\'d instantiations expected in the order of their typedefs %r, observed %r'
+                   % (path, [n for _, n in want_order], [n for _, n in tds]))
     wc = want['c']
     if [(_k(x)) for x in wc] != [(_k(x)) for x in rest]:
         out.append('%s.c: expected instantiations %r, observed %r' % (path, [_k(x)[1] for x in wc], [_k(x)[1] for x in rest]))
